@@ -11,6 +11,7 @@ import (
 	"net"
 	"reflect"
 	"runtime"
+	"sort"
 	"sync"
 	"time"
 
@@ -142,8 +143,28 @@ func genMessage(r *rand.Rand, roundtrip bool, usedReq map[peerprotocol.RequestMe
 		case 9:
 			ln := []int{0, 1, 16383, 16384, r.Intn(16385)}[r.Intn(5)]
 			q := peerprotocol.RequestMessage{Index: pick32(r), Begin: pick32(r), Length: uint32(ln)}
+			if len(usedReq) > 0 && r.Intn(4) == 0 {
+				// a request the peer repeats: the writer answers it with a reject (by design) - no payload, nothing uploaded
+				var keys []peerprotocol.RequestMessage
+				for k := range usedReq {
+					keys = append(keys, k)
+				}
+				sort.Slice(keys, func(i, j int) bool {
+					if keys[i].Index != keys[j].Index {
+						return keys[i].Index < keys[j].Index
+					}
+					if keys[i].Begin != keys[j].Begin {
+						return keys[i].Begin < keys[j].Begin
+					}
+					return keys[i].Length < keys[j].Length
+				})
+				dq := keys[r.Intn(len(keys))]
+				p := &peerwriter.Piece{Data: blockReader{make([]byte, dq.Length)}, RequestMessage: dq}
+				m := peerprotocol.RejectMessage{RequestMessage: dq}
+				return sent{piece: p, expect: refwire.Encode(refwire.Msg{ID: refwire.Reject, Index: dq.Index, Begin: dq.Begin, Length: dq.Length}), want: m, pieceLen: 0, desc: fmt.Sprintf("repeated request %v (reject)", dq)}
+			}
 			if usedReq[q] {
-				continue // the writer answers a repeated request with a reject by design
+				continue
 			}
 			usedReq[q] = true
 			d := make([]byte, ln)
@@ -410,6 +431,7 @@ func runSequence(k int) {
 			time.Sleep(5 * time.Millisecond)
 		}
 	}
+	time.Sleep(10 * time.Millisecond) // anything reported in excess arrives right after the last write
 	upMu.Lock()
 	u := uploaded
 	upMu.Unlock()
@@ -444,8 +466,7 @@ func runSequence(k int) {
 			}
 			want := normalise(s.want)
 			have := normalise(g[i])
-			if s.piece != nil {
-				pm := s.want.(peerprotocol.PieceMessage)
+			if pm, isPiece := s.want.(peerprotocol.PieceMessage); isPiece && s.piece != nil {
 				want = struct {
 					peerprotocol.PieceMessage
 					Data []byte
